@@ -20,6 +20,7 @@ SHORT = {v: k for k, v in CLASSES.items()}
 PER_INSTANCE = {"retrier_pending", "retrier_status"}
 
 POLL_BEST_TIP = "teos::chain_monitor::ChainMonitor::<'a, P, C, L>::poll_best_tip"
+MONITOR_CHAIN = POLL_BEST_TIP.replace("poll_best_tip", "monitor_chain")
 MANAGE_RETRY = "watchtower_plugin::retrier::RetryManager::manage_retry"
 RETRIER_START = "watchtower_plugin::retrier::Retrier::start"
 PLUGIN_MAIN = "watchtower_client::main"
@@ -62,7 +63,7 @@ def thread_roots(prog, cg):
     """kind -> list of root body ids"""
     roots = {
         "API": tower_api_roots(prog),
-        "CHAIN": [POLL_BEST_TIP] if POLL_BEST_TIP in prog.bodies else [],
+        "CHAIN": [x for x in (POLL_BEST_TIP, MONITOR_CHAIN) if x in prog.bodies],  # the polling loop of main and the poll it drives (also called once at bootstrap)
         "RPC": sorted(plugin_rpc_roots(prog)),
         "MANAGER": [MANAGE_RETRY] if MANAGE_RETRY in prog.bodies else [],
         "RETRIER": list(cg.spawned.get(RETRIER_START, [])),
